@@ -37,3 +37,28 @@ def c07(run):
                   assumptions=["SHA-256 (crypto/sha256) is an environment function logged by the harness",
                                "argument purity is observed on the backing array up to cap (sentinel-filled spare capacity)"],
                   exhaustive=False)
+
+
+ADDR_ASSUME = ["SHA-256 / RIPEMD-160 / secp256k1 curve membership are environment functions evaluated by the harness with the standard library (math/big for the curve equation)",
+               "network parameters (prefixes, legacy ids) are read from chaincfg at run time and passed to the specification as a Config event"]
+
+
+# --------------------------------------------------------------------------- C01
+@prop("C01", "Trace_AddressCodec")
+def c01(run):
+    run.build()
+    run.mc("MC_AddressCodec")
+    trace, _ = run.exec("C01")
+    run.validate("Trace_AddressCodec", trace)
+    return finish(run, assumptions=ADDR_ASSUME)
+
+
+# --------------------------------------------------------------------------- C02
+@prop("C02", "Trace_AddressCodec")
+def c02(run):
+    run.build()
+    run.mc("MC_AddressCodec")
+    cases = run.gen("Gen_AddressCodec", env={"GEN_TIER": run.tier})
+    trace, _ = run.exec("C02", cases=cases)
+    run.validate("Trace_AddressCodec", trace)
+    return finish(run, assumptions=ADDR_ASSUME)
